@@ -202,6 +202,11 @@ def run(ctx, crate):
     rule_io_no_retry(ctx, crate)
     rule_screen_model_no_panic(ctx, crate)
     rule_ok_means_attempted(ctx, crate)
+    # queued println text is *moved* into the frame of the draw that takes it, whatever that draw's result: text kept (or copied)
+    # for "the next frame" after a failure is printed twice after a late fault and piles up, forcing every sibling's draw, while the
+    # terminal is down (seed C18m)
+    from .c03 import rule_orphan_moved
+    rule_orphan_moved(ctx, crate)
     # a hand-over of rows between the two counters (Clear/Keep + the matching zombie_lines_count store) completes on every
     # exit, the error exits of the terminal calls included: a failure in between leaves rows owned twice
     from .c03 import rule_row_transfer_pairing
